@@ -30,6 +30,8 @@ RULE = ("a case is a module of 1-3 dataclasses rendered as source (leaf fields o
         "resolution AUTO/EXPLICIT/NONE x 3 dash variants x 3 generation modes x 2 nested modes x default sources "
         "(definition, member factory, default instance, 0-2 config files given to the constructor or on the command "
         "line). Each case runs in one fresh interpreter per PYTHONHASHSEED in {0,1,2,3} (thorough: 0..15 and 'random'). "
+        "For cases without config files the first interpreter also produces the help text repeatedly on ONE parser object "
+        "(print_help, format_help x2 / print_help, --help / --help, format_help / --help, parse, --help, print_help). "
         "A systematic slice (one class, a_b / equal-length aliases x all dash/generation modes) comes first. In-process "
         "unit cases compare the help column of one real field with the model. A few model-free cases show that the "
         "fields of the selected subgroup are listed. Non-trivial = >= 2 exposed fields and at least one of: hidden "
@@ -56,8 +58,9 @@ MANIFEST = {
              "entry's option strings is a function of the declaration alone - stable sort by length of the generation "
              "order, no hash-ordered container (reproducible, full since fix 4849cc7; the old set-based ordering is kept "
              "as a refuted statement with witness a_b / --a-b and a proof that it only agreed without equal-length ties). "
-             "No side effect is PARTIAL: print_help() before the first parse freezes the defaults before config files are "
-             "applied (witness theorem; open findings C16-print-help-before-config and C16-print-help-before-argv-config); "
+             "No side effect is PARTIAL: print_help() before a parse that names a config file on the command line freezes "
+             "the defaults before that file is applied (witness theorem; open finding C16-print-help-before-argv-config; "
+             "the constructor config_path= variant was repaired by fix e83a7f8 and stays as a regression case); "
              "proved harmless without config files and subgroup fields. The text itself is checked by parsing the real "
              "--help output of fresh interpreters under several PYTHONHASHSEEDs back into entries and comparing with the "
              "model and with the property's clauses."),
@@ -237,6 +240,22 @@ try:
                     rec["reparse"] = slim(run(lambda: p5.parse_args(argv)))
                 side.append(rec)
             out["side"] = side
+            if spec.get("rehelp"):
+                # the help text produced several times on ONE parser object (no config files, no subgroups)
+                def txt_dash(p_):
+                    r = run(lambda: p_.parse_args(["--help"]))
+                    return r["stdout"] if (r["o"] == "exit" and r.get("code") == 0) else "<<%s %s %s>>" % (r["o"], r.get("code"), r.get("exc"))
+                def txt_print(p_):
+                    h_ = io.StringIO()
+                    p_.print_help(file=h_)
+                    return h_.getvalue()
+                seqs = {}
+                q = build(); seqs["print_help,format_help,format_help"] = [txt_print(q), q.format_help(), q.format_help()]
+                q = build(); seqs["print_help,--help"] = [txt_print(q), txt_dash(q)]
+                q = build(); seqs["--help,format_help"] = [txt_dash(q), q.format_help()]
+                q = build(); t1 = txt_dash(q); pr = run(lambda: q.parse_args(list(base)))
+                seqs["--help,parse,--help,print_help"] = [t1, txt_dash(q), txt_print(q)]
+                out["rehelp"] = {"seqs": seqs, "parse": slim(pr), "plain_parse": slim(run(lambda: build().parse_args(list(base))))}
     for extra in spec.get("extra_help", []):
         out.setdefault("extra_help", []).append(run(lambda: build().parse_args(extra)))
 finally:
@@ -571,7 +590,8 @@ def _submit(case):
                       "inst": render_inst(c, r["cls"], r["inst"]) if r.get("inst") is not None else None}
                      for r in c["regs"]],
             "tokens": probe_tokens(c), "hidden_argv": [h["argv"] for h in hidden_spellings(c)],
-            "side_dests": side_dests(c), "extra_help": c.get("extra_help", [])}
+            "side_dests": side_dests(c), "extra_help": c.get("extra_help", []),
+            "rehelp": case["op"] == "help.entries" and not c["files"]}
     futs = {}
     for i, seed in enumerate(c["seeds"]):
         s = dict(spec, do=["help", "table", "probes"] if i == 0 else ["help"])
@@ -926,6 +946,25 @@ def impl(case):
     for k in ("baseline", "accept", "hidden", "side"):
         if k in first:
             obs[k] = first[k]
+    if "rehelp" in first and first["help"]["o"] == "exit" and first["help"].get("code") == 0:
+        # texts produced repeatedly on one parser object, kept only where they differ from the fresh parser's text
+        fresh = first["help"]["stdout"]
+        bad = []
+        for name, texts in first["rehelp"]["seqs"].items():
+            for i, t in enumerate(texts):
+                if t != fresh:
+                    fl, tl = fresh.split("\n"), t.split("\n")
+                    diff = [[x, y] for x, y in zip(fl, tl) if x != y][:3] or [[len(fl), len(tl)]]
+                    lost = []
+                    if not t.startswith("<<"):
+                        pf, pt = parse_help(fresh), parse_help(t)
+                        for g1, g2 in zip(field_groups(pf), field_groups(pt)):
+                            for e1, e2 in zip(g1["entries"], g2["entries"]):
+                                if e1["default_shown"] and not e2["default_shown"]:
+                                    lost.append(e1["opts"][0])
+                    bad.append({"sequence": name, "step": i, "diff": diff, "defaults_lost": lost[:6]})
+        obs["rehelp"] = {"n_texts": sum(len(t) for t in first["rehelp"]["seqs"].values()), "bad": bad,
+                         "parse": first["rehelp"]["parse"], "plain_parse": first["rehelp"]["plain_parse"]}
     if first.get("extra_help"):
         obs["extra_help"] = [{"o": h["o"], "code": h.get("code"), "parsed": parse_help(h["stdout"])} for h in first["extra_help"]]
     return obs
@@ -1133,6 +1172,17 @@ def oracle(case, obs):
             if variant in rec and not same_outcome(rec[variant], rec["plain"]):
                 fails.append({"clause": "no-side-effect", "variant": variant, "argv": rec["argv"],
                               "detail": f"parse {rec['argv']} {variant}: {diff_ns(rec['plain'], rec[variant])}"})
+    # 5. the text produced again (and again) on the same parser object is the text of a fresh parser
+    rh = obs.get("rehelp")
+    if rh:
+        for b in rh["bad"]:
+            fails.append({"clause": "rehelp", "sequence": b["sequence"],
+                          "detail": f"on one parser object, sequence [{b['sequence']}], step {b['step']}: the help text differs from a "
+                                    f"fresh parser's --help text: {b['diff']}; defaults no longer shown for {b['defaults_lost']}"})
+        if not same_outcome(rh["parse"], rh["plain_parse"]):
+            fails.append({"clause": "no-side-effect", "variant": "parse_after_dash_help", "argv": None,
+                          "detail": f"a parse after --help on the same parser: {diff_ns(rh['plain_parse'], rh['parse'])}"})
+    for rec in obs.get("side", []):
         if "reparse" in rec and not same_outcome(rec["reparse_after_print_help"], rec["reparse"]):
             fails.append({"clause": "no-side-effect", "variant": "reparse_after_print_help", "argv": rec["argv"],
                           "detail": f"second parse {rec['argv']}: {diff_ns(rec['reparse'], rec['reparse_after_print_help'])}"})
@@ -1206,6 +1256,7 @@ def tags(case, obs):
     t += ["out:ok", f"texts:{len(obs['texts'])}", f"equal-length-options:{has_equal_len(obs)}",
           f"hidden:{any(eg['hidden'] for eg in exp)}", f"files:{len(c['files'])}" + (":" + c["files"][0]["via"] if c["files"] else ""),
           f"inst:{any(r.get('inst') for r in c['regs'])}", f"member-override:{any(eg['g']['over'] for eg in exp)}",
+          f"rehelp-texts:{(obs.get('rehelp') or {}).get('n_texts', 0)}",
           f"entries:{min(sum(len(eg['exposed']) for eg in exp), 12)}", f"depth:{max((len(eg['g']['path']) for eg in exp), default=0)}"]
     kinds = {k for eg in exp for f in eg["exposed"] for k in (f.get("help") or {})}
     t += [f"help:{k}" for k in sorted(kinds)]
@@ -1287,5 +1338,4 @@ def _print_help_before_config(case, obs, fail, via="ctor"):
     return w.get("o") == "exit" and w.get("code") == 2 and "required" in w.get("stderr_tail", "") and bool(required & mentioned)
 
 
-FINDINGS = {"C16-print-help-before-config": _print_help_before_config,
-            "C16-print-help-before-argv-config": lambda case, obs, fail: _print_help_before_config(case, obs, fail, via="argv")}
+FINDINGS = {"C16-print-help-before-argv-config": lambda case, obs, fail: _print_help_before_config(case, obs, fail, via="argv")}
